@@ -97,7 +97,11 @@ pub(crate) fn make_get_candidates_method(
         let context = params.context.unwrap_or_default().into();
         let candidates: Vec<Candidate>;
         {
+            #[cfg(chokan_verif)]
+            verif_delay("CHOKAN_VERIF_DELAY_CONV_LOCK");
             let dict = ctx.dictionary.lock().unwrap();
+            #[cfg(chokan_verif)]
+            verif_delay("CHOKAN_VERIF_DELAY_CONV_LOCK2");
             let user_pref = ctx.user_pref.lock().unwrap();
             candidates = get_candidates(
                 &params.input,
@@ -246,6 +250,8 @@ pub(crate) fn make_update_frequency_method(
         let params = params.parse::<UpdateFrequencyRequest>()?;
         {
             let session_id = params.session_id;
+            #[cfg(chokan_verif)]
+            verif_delay("CHOKAN_VERIF_DELAY_CONFIRM_LOCK");
             let mut store = store.lock().unwrap();
 
             let session = store.pop_session(&SessionId::from(session_id));
@@ -366,6 +372,57 @@ pub(crate) fn make_get_alphabetic_candidate_method(
         }];
 
         RpcResult::Ok(GetAlphabeticCandidateResponse { candidates })
+    })?;
+
+    Ok(())
+}
+
+/// verification hook: sleep for the number of milliseconds given in the environment variable `name`
+#[cfg(chokan_verif)]
+pub(crate) fn verif_delay(name: &str) {
+    if let Ok(v) = std::env::var(name) {
+        if let Ok(ms) = v.parse::<u64>() {
+            std::thread::sleep(std::time::Duration::from_millis(ms));
+        }
+    }
+}
+
+/// verification hook: `Verif.Dump` returns the learned counts, the user dictionary lines and the number of
+/// live sessions; `poisoned` tells which of the shared locks are poisoned.
+#[cfg(chokan_verif)]
+pub(crate) fn make_verif_dump(
+    module: &mut RpcModule<MethodContext>,
+    store: Arc<Mutex<SessionStore>>,
+) -> anyhow::Result<()> {
+    module.register_method("Verif.Dump", move |_, ctx, _| {
+        let mut poisoned: Vec<&str> = vec![];
+        if ctx.dictionary.is_poisoned() {
+            poisoned.push("dictionary");
+        }
+        if ctx.user_pref.is_poisoned() {
+            poisoned.push("user_pref");
+        }
+        if store.is_poisoned() {
+            poisoned.push("store");
+        }
+        let (freq, entries) = match ctx.user_pref.lock() {
+            Ok(p) => (
+                p.frequency().verif_entries(),
+                p.user_dictionary()
+                    .entries_ref()
+                    .iter()
+                    .map(|e| e.to_string())
+                    .collect::<Vec<_>>(),
+            ),
+            Err(_) => (vec![], vec![]),
+        };
+        let sessions = store.lock().map(|s| s.verif_len()).unwrap_or(0);
+        RpcResult::Ok(serde_json::json!({
+            "frequencies": freq,
+            "user_entries": entries,
+            "sessions": sessions,
+            "poisoned": poisoned,
+        }))
     })?;
 
     Ok(())
